@@ -21,7 +21,7 @@ import (
 // "p0.writerState.releaseWriter"); a call site whose dominating conditions refute every disjunct does not release.
 
 func init() {
-	register(&Rule{ID: "R18.3", Props: []string{"C18"}, Floor: 15,
+	register(&Rule{ID: "R18.3", Props: []string{"C18", "C08"}, Floor: 15,
 		Doc: "no use after release: after a call that may return an object to its pool (pools.Pool.Put, transitively through helpers that pass the same argument on, under the helper's own nil/flag guards), the function does not touch that object again (field address, load, store, call argument, pending defer) on any path",
 		Run: runR18_3})
 }
